@@ -125,6 +125,18 @@ func (ex *Exec) load(st *State, p Value, t types.Type, pc *Term, pos token.Pos) 
 
 // wellFormed assumes that references read from memory are allocated or nil.
 func (ex *Exec) wellFormed(st *State, v Value, pc *Term) {
+	if ex.dry > ex.inSpec {
+		// dry runs add no facts
+		return
+	}
+	if ex.inSpec > 0 {
+		// contract evaluation: facts about bound variables cannot be asserted globally
+		for _, c := range v.comps() {
+			if hasBound(c) {
+				return
+			}
+		}
+	}
 	switch x := v.(type) {
 	case PtrV:
 		if x.Kind == PHeap && !x.Ref.lit {
@@ -225,10 +237,10 @@ func (ex *Exec) sliceArr(st *State, sl SliceV, k int, sort string) *Term {
 	switch sl.St {
 	case StDyn:
 		m := st.get(bmemName(sl.Elem, k), SArr(SRef, SArr(SBV(64), sort)))
-		return Select(m, sl.ID)
+		return SelectA(m, sl.ID)
 	case StField:
 		m := st.get(heapName(sl.Root, sl.Path, 0), SArr(SRef, SArr(SBV(64), sort)))
-		return Select(m, sl.ID)
+		return SelectA(m, sl.ID)
 	default:
 		v, ok := st.cells[sl.Cell.id]
 		if !ok {
